@@ -231,6 +231,9 @@ def register(I):
     @reg("Deref::deref", "DerefMut::deref_mut", "Borrow::borrow")
     def deref_(I, st, args, info):
         a = args[0]
+        gv = I.read_ref(a, st) if isinstance(a, Ref) else (a.v if isinstance(a, ValRef) else a)
+        if isinstance(gv, Adt) and gv.ty == "RefGuard":
+            return gv.fields[0]           # Ref<'_, T> / RefMut<'_, T>: a transparent pointer to the content
         if isinstance(a, Ref) and info.path.last() == "deref_mut":
             v = I.read_ref(a, st)
             if isinstance(v, HeapBox):
@@ -283,7 +286,7 @@ def register(I):
             r = I.P.resolve_fn(_interp.parse_path("<%s as From<%s>>::from" % (dt, src)), handwritten_only=True)
             if r is not None:
                 return I.call_fn(r[0], args, st, dict(r[1]))
-        if isinstance(v, StrSlice) and dt in ("String", ""):
+        if isinstance(v, StrSlice) and dt in ("String", "", "PathBuf", "OsString"):
             return StringV(v.chars())
         if isinstance(v, StrSlice) and dt.startswith("Box<"):
             return BoxV(StringV(v.chars()))
@@ -445,13 +448,39 @@ def register(I):
         return args[0]
 
     # ----------------------------------------------------------------- comparison
+    def is_path_cmp(info):
+        q = _interp.short_type(info.path.qself or "").lstrip("&").strip()
+        return q in ("Path", "PathBuf") or q.startswith("Path") and not q[4:5].isalnum()
+
     @reg("PartialEq::eq")
     def peq(I, st, args, info):
+        if is_path_cmp(info):
+            return path_eq(I, st, args[0], args[1])
         return struct_eq(I, args[0], args[1], st)
 
     @reg("PartialEq::ne")
     def pne(I, st, args, info):
+        if is_path_cmp(info):
+            return b_not(path_eq(I, st, args[0], args[1]))
         return b_not(struct_eq(I, args[0], args[1], st))
+
+    # ----------------------------------------------------------------- std::path (unix): a path is its string; equality is component-wise
+    @reg("Path::new", "PathBuf::as_path", "Path::as_os_str", "OsStr::new", "PathBuf::as_os_str")
+    def path_new(I, st, args, info):
+        v = deref_all(I, args[0], st)
+        return string_as_str(v) if isinstance(v, StringV) else v
+
+    @reg("Path::to_path_buf", "PathBuf::new", "Path::to_owned")
+    def path_to_buf(I, st, args, info):
+        if not args:
+            return StringV(())
+        return StringV(tuple(as_str_items(I, args[0], st)))
+
+    @reg("Path::to_str", "Path::to_string_lossy", "Path::display")
+    def path_to_str(I, st, args, info):
+        v = deref_all(I, args[0], st)
+        v = string_as_str(v) if isinstance(v, StringV) else v
+        return opt_some(v) if info.path.last() == "to_str" else v
 
     @reg("PartialOrd::le")
     def ple(I, st, args, info):
@@ -512,6 +541,18 @@ def register(I):
     @reg("<impl str>::chars")
     def chars(I, st, args, info):
         return IterV(as_str_items(I, args[0], st))
+
+    @reg("<impl str>::bytes")
+    def str_bytes(I, st, args, info):
+        out = []
+        for c in as_str_items(I, args[0], st):
+            if isinstance(c, int):
+                out.extend(chr(c).encode("utf-8"))
+            elif is_sym(c) and not I.feasible(st.pc, z3.UGE(c, 0x80)):
+                out.append(z3.Extract(7, 0, c))          # provably ASCII here: one byte, the code point itself
+            else:
+                raise Unsupported("bytes of possibly non-ASCII symbolic text")
+        return IterV(out)
 
     @reg("<impl str>::contains")
     def str_contains(I, st, args, info):
@@ -944,7 +985,7 @@ def register(I):
             if isinstance(x, IterV):
                 return x
             if isinstance(x, MapV):
-                return IterV([(ValRef(k), ValRef(w)) if byref else (k, w) for k, w in x.entries])
+                return UnorderedIter([(ValRef(k), ValRef(w)) if byref else (k, w) for k, w in ordered_entries(I, x)])
             items = seq_of(I, x, st)
             return IterV([ValRef(e) for e in items] if byref else items)
         return umap(f, vv)
@@ -1000,7 +1041,7 @@ def register(I):
         """evaluate an iterator with pending adaptors -> ([(st', items)...], [(st_p, Panic)...]).
         Closure calls are threaded through the state; forks inside a closure (several outcomes, conditional
         panics) split the evaluation into several paths."""
-        if isinstance(it, UnorderedIter) and not unordered_ok and I.hash_order is None:
+        if isinstance(it, UnorderedIter) and not unordered_ok and I.hash_order is None and len(it.items) > 1:
             raise Unsupported("result depends on HashMap iteration order (consumer is not order-insensitive)")
         paths = [(st, list(it.items))]
         panics = []
@@ -1375,6 +1416,26 @@ def register(I):
         it = IterV([(ValRef(k), ValRef(v)) for k, v in ents])
         return UnorderedIter(it.items)
 
+    def ordered_entries(I, m):
+        ents = list(m.entries)
+        if I.hash_order == "rev":
+            ents.reverse()
+        elif I.hash_order == "rot" and len(ents) > 1:
+            ents = ents[1:] + ents[:1]
+        return ents
+
+    @reg("HashMap::values", "HashMap::keys", "HashMap::into_values", "HashMap::into_keys")
+    def map_values(I, st, args, info):
+        m = deref_all(I, args[0], st)
+        which = info.path.last()
+        idx = 1 if "values" in which else 0
+        owned = which.startswith("into_")
+        return UnorderedIter([(e[idx] if owned else ValRef(e[idx])) for e in ordered_entries(I, m)])
+
+    @reg("HashMap::is_empty")
+    def map_is_empty(I, st, args, info):
+        return len(deref_all(I, args[0], st).entries) == 0
+
     @reg("HashMap::len")
     def map_len(I, st, args, info):
         return len(deref_all(I, args[0], st).entries)
@@ -1450,6 +1511,26 @@ def register(I):
         I.write_cell(r.key, r.path, Adt("Cell", None, [new]), st)
         return () if which == "set" else val
 
+    @reg("RefCell::borrow", "RefCell::borrow_mut", "RefCell::try_borrow", "RefCell::try_borrow_mut", "RefCell::get_mut")
+    def refcell_borrow(I, st, args, info):
+        """borrow guards are transparent pointers to the content; the borrow flag (already-borrowed panics) is not modelled"""
+        which = info.path.last()
+        r = args[0]
+        if isinstance(r, Ref):
+            inner = Ref(r.key, tuple(r.path) + (("field", 0, None),))
+        else:
+            if "mut" in which:
+                raise Unsupported("RefCell::%s through a snapshot reference" % which)
+            inner = ValRef(deref_all(I, r, st).fields[0])
+        if which == "get_mut":
+            return inner
+        g = Adt("RefGuard", None, [inner])
+        return res_ok(g) if which.startswith("try_") else g
+
+    @reg("RefCell::replace", "RefCell::take", "RefCell::into_inner")
+    def refcell_ops(I, st, args, info):
+        return cell_ops(I, st, args, info)
+
     @reg("process::id", "::id")
     def process_id(I, st, args, info):
         I.nondet_reads.append("process id")
@@ -1516,6 +1597,39 @@ def register(I):
     @reg("RangeInclusive::new")
     def range_incl_new(I, st, args, info):
         return Struct("RangeInclusive", ("start", "end"), (args[0], args[1]))
+
+    def shift(opname, msg):
+        def h(I, st, args, info):
+            ty = _interp.short_type(info.path.qself or "").lstrip("&").strip()
+            if ty not in _interp.INT_TYPES:
+                raise Unsupported("operator trait %s on %s" % (opname, ty))
+            w = _interp.INT_TYPES[ty]
+            a, b = deref_all(I, args[0], st), deref_all(I, args[1], st)
+            r = I.binop(opname, a, b, ty)
+            if I.profile == "dev":
+                # core's impls inherit the caller's overflow checks: a shift amount >= the width panics
+                if isinstance(b, int):
+                    if b >= w:
+                        raise PanicExc(msg)
+                else:
+                    ov = z3.UGE(b, z3.BitVecVal(w, b.size()))
+                    return Outcomes([(b_not(ov), r), (ov, Panic(msg, "core::ops::%s" % opname))])
+            return r
+        h.__name__ = "prim_" + opname
+        return h
+    R["Shl::shl"] = shift("Shl", "attempt to shift left with overflow")
+    R["Shr::shr"] = shift("Shr", "attempt to shift right with overflow")
+
+    def bitop(opname):
+        def h(I, st, args, info):
+            ty = _interp.short_type(info.path.qself or "").lstrip("&").strip()
+            if ty not in _interp.INT_TYPES and ty != "bool":
+                raise Unsupported("operator trait %s on %s" % (opname, ty))
+            return I.binop(opname, deref_all(I, args[0], st), deref_all(I, args[1], st), ty)
+        return h
+    for nm_, op_ in (("BitAnd::bitand", "BitAnd"), ("BitOr::bitor", "BitOr"), ("BitXor::bitxor", "BitXor")):
+        if nm_ not in R:
+            R[nm_] = bitop(op_)
 
     R["Mul::mul"] = arith("Mul", "attempt to multiply with overflow")
     R["Add::add"] = arith("Add", "attempt to add with overflow")
@@ -1806,6 +1920,71 @@ def register(I):
     from . import fmtmodel, bitflagsmodel
     fmtmodel.register(I, R, fmt_hooks)
     bitflagsmodel.register(I, R)
+
+
+def path_components(items):
+    """[(guard, components)] of a unix path over code-point terms; a component is 'root' | 'cur' | 'parent' | ('normal', (chars...)).
+    Repeated and trailing separators and interior '.' components do not count (std::path::Components)."""
+    alts = [(True, [])]            # per alternative: the class of each character: '/', '.', other
+    for c in items:
+        nxt = []
+        for g, cl in alts:
+            if isinstance(c, int):
+                nxt.append((g, cl + ["/" if c == 47 else "." if c == 46 else "o"]))
+                continue
+            for k, gc in (("/", c == 47), (".", c == 46), ("o", z3.And(c != 47, c != 46))):
+                nxt.append((b_and(g, gc), cl + [k]))
+        alts = nxt
+        if len(alts) > 20000:
+            raise Unsupported("path with too many symbolic characters")
+    out = []
+    for g, cl in alts:
+        comps = []
+        if cl and cl[0] == "/":
+            comps.append("root")
+        seg, first = [], True
+        for i, k in enumerate(cl + ["/"]):
+            if k != "/":
+                seg.append(i)
+                continue
+            if seg:
+                kinds = [cl[j] for j in seg]
+                if kinds == ["."]:
+                    if first and "root" not in comps:
+                        comps.append("cur")
+                elif kinds == [".", "."]:
+                    comps.append("parent")
+                else:
+                    comps.append(("normal", tuple(items[j] for j in seg)))
+                first = False
+                seg = []
+        out.append((g, comps))
+    return out
+
+def path_eq(I, st, a, b):
+    xa, xb = tuple(as_str_items(I, a, st)), tuple(as_str_items(I, b, st))
+    acc = False
+    for g1, c1 in path_components(xa):
+        for g2, c2 in path_components(xb):
+            g = b_and(g1, g2)
+            if g is False or len(c1) != len(c2):
+                continue
+            for p, q in zip(c1, c2):
+                if isinstance(p, str) or isinstance(q, str):
+                    if p != q:
+                        g = False
+                        break
+                    continue
+                if len(p[1]) != len(q[1]):
+                    g = False
+                    break
+                for x, y in zip(p[1], q[1]):
+                    g = b_and(g, (x == y) if (isinstance(x, int) and isinstance(y, int)) else I.sym_eq(x, y))
+                if g is False:
+                    break
+            acc = b_or(acc, g)
+    return b_simpl(acc) if is_sym(acc) else acc
+
 
 
 class UnorderedIter(IterV):
